@@ -39,7 +39,12 @@ class SList:
 
     def _slice(self, s):
         if s.step is not None:
-            raise Undecided("slice step")
+            st = num(s.step)
+            if st.concrete and st.t == -1 and s.start is None and s.stop is None:
+                n = self.length
+                return SList(n, lambda k, n=n: self.elem_fn(n - 1 - k), name=(self.name or "") + "[::-1]")
+            if not (st.concrete and st.t == 1):
+                raise Undecided("slice step")
         n = self.length
         lo = num(0 if s.start is None else s.start)
         hi = n if s.stop is None else num(s.stop)
@@ -47,6 +52,14 @@ class SList:
         hi = sym.ite(hi < 0, sym.smax(hi + n, 0), sym.smin(hi, n))
         ln = sym.smax(hi - lo, 0)
         return SList(ln, lambda k, lo=lo: self.elem_fn(lo + k), name=(self.name or "") + "[:]")
+
+    def append(self, v):
+        n, old = self.length, self.elem_fn
+        self.elem_fn = lambda k, n=n, old=old: _pick(k, n, v, old)
+        self.length = n + 1
+
+    def havoc(self, base):
+        raise Undecided("havoc of a symbolic list (use a constructive loop contract)")
 
     def __len__(self):
         if self.length.concrete:
@@ -66,6 +79,61 @@ class SList:
 
     def __repr__(self):
         return "SList(%s,len=%s)" % (self.name, self.length.t)
+
+
+class SDict:
+    """Insertion-ordered mapping with a symbolic number of entries: entry k is
+    (key_fn(k), val_fn(k)).  Keys are required to be pairwise distinct (obligation at insert)."""
+
+    def __init__(self, length, key_fn, val_fn, name=None):
+        self.length = num(length)
+        self.key_fn, self.val_fn, self.name = key_fn, val_fn, name
+
+    def __setitem__(self, key, val):
+        from .loops import scalar_eq
+        run = engine()
+        j = sym.fresh_int("dk")
+        n = self.length
+        run.oblige("dict-insert-key-is-new", ((j >= 0) & (j < n)).implies(~scalar_eq(self.key_fn(j), key)),
+                   kind="call-pre", cls="input", meta={"dict": self.name})
+        ok, ov = self.key_fn, self.val_fn
+        from .opaque import Cond
+        self.key_fn = lambda k, ok=ok, n=n: _pick(k, n, key, ok)
+        self.val_fn = lambda k, ov=ov, n=n: _pick(k, n, val, ov)
+        self.length = n + 1
+
+    def havoc(self, base):
+        raise Undecided("havoc of a symbolic dict")
+
+    def __format__(self, spec):
+        return "<dict>"
+
+
+def _pick(k, n, new, old_fn):
+    from .opaque import Cond
+    k = num(k)
+    c = (k == n)
+    if c.concrete:
+        return new if c.t else old_fn(k)
+    return Cond([(c, new), (~c, old_fn(k))])
+
+
+def s_map(fn, seq):
+    """[fn(x) for x in seq] for sequences of symbolic length."""
+    if isinstance(seq, SList):
+        return SList(seq.length, lambda k: fn(seq.elem(k)), name="comprehension")
+    return [fn(x) for x in seq]
+
+
+def s_dictcomp(fn, seq):
+    """{k: v for (..) in seq}; fn returns (key, value).  Distinct keys are the caller's
+    precondition (recorded by the contract)."""
+    if isinstance(seq, SList):
+        def kv(k, which):
+            e = seq.elem(k)
+            return fn(*e)[which]
+        return SDict(seq.length, lambda k: kv(k, 0), lambda k: kv(k, 1), name="dict-comprehension")
+    return dict(fn(*e) for e in seq)
 
 
 class Rec:
@@ -107,7 +175,7 @@ def _unshim(t):
 def s_isinstance(x, t):
     t = _unshim(t)
     if t is list or (isinstance(t, tuple) and list in t):
-        if isinstance(x, SList):
+        if isinstance(x, SList) and not isinstance(x, SRange):
             return True
     if t is float:
         return isinstance(x, Num) and x.pyfloat or _b.isinstance(x, float)
@@ -118,11 +186,19 @@ def s_isinstance(x, t):
     return _b.isinstance(x, t)
 
 
+class SRange(SList):
+    """range(start, stop) with symbolic bounds (not a list until list() is applied)."""
+    pass
+
+
 def s_range(*a):
     a = [num(v) for v in a]
     if all(v.concrete for v in a):
         return _b.range(*[int(v.t) for v in a])
-    raise Undecided("range() with a symbolic bound and no loop invariant")
+    if len(a) > 2:
+        raise Undecided("range() with a step and symbolic bounds")
+    lo, hi = (Num(0), a[0]) if len(a) == 1 else (a[0], a[1])
+    return SRange(sym.smax(hi - lo, 0), lambda k, lo=lo: lo + k, name="range")
 
 
 def s_int(x=0):
@@ -182,6 +258,8 @@ def s_str(x=""):
 
 
 def s_list(x=()):
+    if isinstance(x, SRange):
+        return SList(x.length, x.elem_fn, name="list(range)")
     if isinstance(x, SList):
         return x
     return _b.list(x)
